@@ -12,6 +12,8 @@ pub struct Rv {
     pub calls: Vec<(String, u64)>,
     pub rng: Rng,
     pub junk: u64,
+    /// addresses in [zero.0, zero.1) read as 0 when never written (the zero-filled heap)
+    pub zero: (u64, u64),
 }
 
 impl Rv {
@@ -24,7 +26,10 @@ impl Rv {
         }
     }
     fn ld(&self, a: u64) -> u64 {
-        *self.mem.get(&a).unwrap_or(&(a.wrapping_mul(0x9E3779B97F4A7C15) ^ self.junk))
+        match self.mem.get(&a) {
+            Some(v) => *v,
+            None => if a >= self.zero.0 && a < self.zero.1 { 0 } else { a.wrapping_mul(0x9E3779B97F4A7C15) ^ self.junk },
+        }
     }
 }
 
@@ -41,7 +46,7 @@ impl Machine for Rv {
             *r = rng.next();
         }
         let junk = rng.next();
-        Rv { regs, mem: HashMap::new(), calls: vec![], rng, junk }
+        Rv { regs, mem: HashMap::new(), calls: vec![], rng, junk, zero: (0, 0) }
     }
 
     fn exec(&mut self, code: &[Code]) -> Exit {
@@ -181,6 +186,9 @@ impl Machine for Rv {
     }
     fn temp_as_spill(_t: Register) -> Option<usize> {
         None
+    }
+    fn set_zero_region(&mut self, lo: u64, hi: u64) {
+        self.zero = (lo, hi);
     }
     fn scratch_regs() -> Vec<usize> {
         vec![1]
